@@ -57,8 +57,7 @@ def check_wellformed(proc):
 
     def block(stmts, scope):
         scope = dict(scope)
-        if len(stmts) == 0:
-            problems.append("empty statement block")
+        # (an empty block is unusual -- Exo normally keeps a `pass` -- but C04 does not forbid it)
         for s in stmts:
             if isinstance(s, (LoopIR.Assign, LoopIR.Reduce)):
                 use(s.name, scope, "write")
